@@ -4,8 +4,8 @@
 export GOFLAGS=-mod=mod GOPROXY=off GOSUMDB=off GOTOOLCHAIN=local
 cd /repo || exit 2
 go build ./... || exit 1
-go test -count=1 ./harfbuzz/ ./shaping/ ./font/... ./fontscan/ 2>&1 | grep -v "^ok\|no test files" ; 
-if go test -count=1 ./harfbuzz/ ./shaping/ ./font/... ./fontscan/ 2>&1 | grep -q "^FAIL\|^---"; then echo "TESTS FAIL"; exit 1; fi
+go test -count=1 ./... 2>&1 | grep -v "^ok\|no test files" ; 
+if go test -count=1 ./... 2>&1 | grep -q "^FAIL\|^---"; then echo "TESTS FAIL"; exit 1; fi
 out=$(sh /verif/repro/hunt_run.sh "$1" "$2" "$3" 2>&1); echo "$out" | tail -4
 echo "$out" | grep -q "^ok" || { echo "REPRODUCER STILL FAILS"; exit 1; }
 cd /verif && bash tools/allquick.sh 2>&1 | tail -6 | grep -q "all 17 quick checks exit 0" || { echo "QUICK CHECKS NOT GREEN"; bash tools/allquick.sh 2>&1 | tail -15; exit 1; }
